@@ -31,14 +31,18 @@ EXPLANATION = "theorems over the trie model of eliot.parse; model tied to the co
 
 # ---- generation -----------------------------------------------------------------------------
 
-def gen_tree(rng, uuid, pre, depth, maxdepth, msgs, ctr):
+def gen_tree(rng, uuid, pre, depth, maxdepth, msgs, ctr, wide=None):
     t = rng.choice(["a", "b", "a", "b", ""])  # the default action type is the empty string
     msgs.append(dict(uuid=uuid, level=pre + [1], atype=t, status="started", body=next(ctr)))
     n = 2
     d = depth
-    for _ in range(rng.randint(0, 3)):
-        if depth < maxdepth and rng.random() < 0.4:
-            d = max(d, gen_tree(rng, uuid, pre + [n], depth + 1, maxdepth, msgs, ctr))
+    width = rng.randint(0, 3)
+    if wide and (depth == 0 if wide[1] == 0 else (depth == 1 and not wide[2])):
+        width = wide[0]  # one action (the root, or its first sub-action) with very many direct children
+        wide[2] = True
+    for _ in range(width):
+        if depth < maxdepth and rng.random() < (0.4 if width <= 3 else (0.01 if not (wide and wide[1] == 1 and depth == 0) else 0.6)):
+            d = max(d, gen_tree(rng, uuid, pre + [n], depth + 1, maxdepth, msgs, ctr, wide))
         else:
             msgs.append(dict(uuid=uuid, level=pre + [n], body=next(ctr)))
         n += 1
@@ -46,15 +50,19 @@ def gen_tree(rng, uuid, pre, depth, maxdepth, msgs, ctr):
     return d
 
 
-def gen_forest(rng, maxdepth, maxtasks):
+WIDTHS = [40, 130, 254, 255, 256, 257, 258, 300, 520]
+
+
+def gen_forest(rng, maxdepth, maxtasks, wide=False):
     ctr = itertools.count()
     msgs, depth = [], 0
-    ntasks = rng.randint(1, maxtasks)
+    ntasks = rng.randint(1, 2 if wide else maxtasks)
     for u in range(ntasks):
-        if rng.random() < 0.2:
+        if rng.random() < 0.2 and not (wide and u == 0):
             msgs.append(dict(uuid="u%d" % u, level=[1], body=next(ctr)))
         else:
-            depth = max(depth, 1 + gen_tree(rng, "u%d" % u, [], 0, maxdepth, msgs, ctr))
+            w = [rng.choice(WIDTHS), rng.randint(0, 1), False] if (wide and u == 0) else None
+            depth = max(depth, 1 + gen_tree(rng, "u%d" % u, [], 0, min(maxdepth, 2) if w else maxdepth, msgs, ctr, w))
     return msgs, ntasks, depth
 
 
@@ -192,6 +200,35 @@ def oracle_wf(ctx, case, steps, parser):
     except Exception as e:  # noqa
         ctx.violation("parse_stream raised %s on a well-formed history" % type(e).__name__, case)
         return None
+    # ... and each completed task is reported when its last message has been pulled from the input, not later:
+    # observable with a lazily produced input (a log that is still being written) or one that fails part-way
+    class Truncated(Exception):
+        pass
+    cut = case.get("cut", len(msgs))
+    pulled = [0]
+
+    def lazy():
+        for m in msgs[:cut]:
+            pulled[0] += 1
+            yield to_dict(m)
+        if cut < len(msgs):
+            raise Truncated()
+    events = []
+    try:
+        for t in Parser.parse_stream(lazy()):
+            events.append([pulled[0], t.is_complete()])
+    except Truncated:
+        pass
+    except Exception as e:  # noqa
+        ctx.violation("parse_stream raised %s on a lazily produced well-formed history" % type(e).__name__, case)
+        return None
+    exp_events = [[i + 1, True] for i, s in enumerate(steps[:cut]) if s["y"]]
+    if cut == len(msgs):
+        exp_events += [[len(msgs), False]] * sum(1 for u, n in seen.items() if n < total[u])
+    if events != exp_events:
+        ctx.violation("parse_stream over a lazily produced input (truncated by an error after %d of %d messages) reported tasks at "
+                      "(messages pulled, complete) = %s, expected %s" % (cut, len(msgs), events, exp_events), case)
+        return None
     exp_done = [t for s in steps for t in s["y"]]
     got = [dump_task(t, False) for t in stream]
     n_inc = sum(1 for u, n in seen.items() if n < total[u])
@@ -211,7 +248,8 @@ def run(ctx):
     maxdepth = ctx.budget(3, 5)
     cases = []
     for g in range(ngroups):
-        base, ntasks, depth = gen_forest(rng, maxdepth, ctx.budget(3, 5))
+        wide = g % ctx.budget(15, 40) == 7
+        base, ntasks, depth = gen_forest(rng, maxdepth, ctx.budget(3, 5), wide=wide)
         total = {}
         for m in base:
             total[m["uuid"]] = total.get(m["uuid"], 0) + 1
@@ -232,13 +270,13 @@ def run(ctx):
             if len(ms) <= 5 and not ctx.quick:
                 orders += [("perm", list(p)) for p in itertools.permutations(ms)]
             else:
-                for _ in range(norders):
+                for _ in range(2 if wide else norders):
                     p = list(ms)
                     rng.shuffle(p)
                     orders.append(("shuffle", p))
             for oname, p in orders:
                 cases.append(dict(kind="wf", group="%d/%s" % (g, vname), order=oname, spec=total, msgs=p,
-                                  ntasks=ntasks, depth=depth))
+                                  ntasks=ntasks, depth=depth, wide=wide, cut=len(p) if rng.random() < 0.5 else rng.randint(0, len(p))))
         if g % 3 == 2:
             p = list(base)
             rng.shuffle(p)
@@ -256,7 +294,7 @@ def run(ctx):
             continue
         nontriv = wf and (c["ntasks"] >= 2 or c["depth"] >= 2) and c["order"] != "emission"
         ctx.case(dict(msgs=c["msgs"]), nontrivial=nontriv, tags=["kind:" + c["kind"], "order:" + c["order"], "variant:" + c["group"].split("/")[1],
-                                                                 "ntasks:%d" % c["ntasks"], "depth:%d" % c["depth"]])
+                                                                 "ntasks:%d" % c["ntasks"], "depth:%d" % c["depth"]] + (["wide"] if c.get("wide") else []))
         ctx.count("adds", n=len(steps))
         # out-of-domain: from the first underMessage on, the model does not claim to follow the code
         cut = None
